@@ -26,7 +26,9 @@ def delta_for_block(uid: int, kwspec: dict) -> dict:
     delta: dict[str, Any] = {}
     for name, val in kwspec.items():
         if name == 'solver':
-            delta['solver'] = f'u{uid}' if val == 'u' else val
+            # 'u' / 'ug' / 'ub': a unique CG / GMRES / BiCGStab per block; 'cg40!': a fresh instance equal to
+            # the palette value; else the palette value itself
+            delta['solver'] = {'u': f'u{uid}', 'ug': f'g{uid}', 'ub': f'b{uid}'}.get(val, val.rstrip('!'))
         elif name == 'throw':
             delta['throw'] = bool(val)
         elif name == 'options':
@@ -61,7 +63,7 @@ def abstract_entry(entry: dict) -> tuple:
     cb = entry['callback']
     cbk = cb if cb == 'default' else cb[0]
     sv = entry['solver']
-    svk = sv if not sv.startswith('u') else 'u'
+    svk = sv if sv[:2] in ('cg', 'gm', 'bi') else sv[0]
     return (svk, entry['throw'], options_kind_of(entry['options']), cbk)
 
 
@@ -121,10 +123,11 @@ def predict_apply(
 
 
 def _max_steps(solver_tag: str) -> int:
-    fixed = {'cg1': 1, 'cg40': 40, 'cg41': 41, 'cg500': 500}
-    if solver_tag in fixed:
-        return fixed[solver_tag]
-    return 1000 + int(solver_tag[1:])
+    for prefix, base in (('cg', 0), ('gm', 0), ('bi', 0), ('u', 1000), ('g', 2000), ('b', 3000)):
+        rest = solver_tag[len(prefix) :]
+        if solver_tag.startswith(prefix) and rest.isdigit():
+            return base + int(rest)
+    raise ValueError(solver_tag)
 
 
 def judge_apply(pred: dict, raised: str | None, fired: list, fault_fired: bool, shape: str, caps: list[dict]) -> str | None:
@@ -205,7 +208,7 @@ class RefConfig:
     def enter(self, ctx: str, uid: int, kwspec: dict, entry: dict | None = None) -> dict:
         delta = delta_for_block(uid, kwspec)
         for f, tag in delta.items():
-            if isinstance(tag, str) and tag not in ('default', 'P0', 'k0', 'k1') and tag[-1].isdigit() and not tag.startswith('cg'):
+            if isinstance(tag, str) and tag not in ('default', 'P0', 'k0', 'k1') and tag[-1].isdigit() and tag[:2] not in ('cg', 'gm', 'bi'):
                 self.owner[tag] = ctx
         new = merge(self.top(ctx), delta) if entry is None else dict(entry)
         self.stacks[ctx].append(new)
